@@ -292,6 +292,21 @@ def dispatch (op : String) (a : Args) : Option String :=
       pure ("{\"satisfies\":" ++ toString (ILP.satisfies sp p) ++ ",\"feasible\":" ++ toString (ILP.feasible sp p) ++
             ",\"objvalue\":" ++ jRat (ILP.objValue sp p) ++ ",\"docvalue\":" ++ jRat (ILP.docValue sp.obj (ILP.wSums sp p)) ++
             ",\"decoded\":" ++ jBins (ILP.decode val sp items p) ++ "}")
+  | "cbldm_validate" => do
+      -- pd=int:<i> | pd=float:<0|1 (below 1?)> ; tl=<0|1 (positive?)> ; vals=[signed ints]
+      let pd : PDiff ← match (← a.get "pd").splitOn ":" with
+        | ["int", i] => (parseInt i).map PDiff.int
+        | ["float", b] => (parseBool b).map PDiff.nonInt
+        | _ => none
+      let vals ← a.get "vals" >>= parseList parseInt
+      pure (match cbldmValidate { numbins := (← a.nat "k"), timeLimitPositive := (← a.bool "tl"), pd := pd, items := vals } with
+            | .ok () => "{\"ok\":true}"
+            | .error e => jErr e)
+  | "numitems" => do
+      let lists ← a.get "bins" >>= parseBinsOf parseNatList
+      pure (match numitems (← a.bool "contents") lists (← a.nat "i") with
+            | .ok n => toString n
+            | .error e => jErr e)
   | "objvalue" => do
       let o ← a.get "obj" >>= parseObjective
       pure (jInt (o.value (← a.nats "sums") (← a.bool "sorted")))
